@@ -3,7 +3,8 @@ from plib import *
 from props.builder import PProg
 from props.common import ProgRunner
 
-LEAN_TARGETS = ["Plonk.Props.C12"]
+EXTRA_AUDITS = ["ComposerTie"]
+LEAN_TARGETS = ["Plonk.Props.C12", "Plonk.Props.ComposerTie"]
 ASSUMPTIONS = ["JubJub group structure (closure/associativity/order 8*r_J of the twisted Edwards law) is an explicit hypothesis "
                "structure of the scalar-multiplication theorems, not proved; its executable consequences are checked against "
                "native dusk-jubjub on every case",
